@@ -39,12 +39,13 @@ Definition model_initial (prefix expr : str) : option str :=
   | None => None
   end.
 
-(* PARAMETER (name = expr): the text after the equals sign, stripped, with the literals put back
-   (_restore_strings: same loop as for initial values, NBSP substitution included) *)
+(* PARAMETER (name = expr): the text after the equals sign is formatted like an initial value given
+   on the declaration -- blanks removed, a blank after each comma, then the literals put back
+   (_restore_strings: NBSP substitution included) *)
 Definition model_param (name expr : str) : option str :=
   let prefix := s "parameter (" ++ name ++ s " = " in
   match mask (prefix ++ expr ++ s ")") with
-  | Some (m, strs) => unmask_in (nbsp_sub nb) strs (strip (removelast (skipn (length prefix) m)))
+  | Some (m, strs) => initial_of nb strs (removelast (skipn (length prefix) m))
   | None => None
   end.
 
